@@ -453,6 +453,20 @@ pub fn drive_main(id: &str, tier_arg: &str) -> i32 {
         // fall back to any shard's samples
         merged.samples.push(json!({"note": "no non-trivial sample was captured by shard 0"}));
     }
+    // 2b. coverage-guided campaigns (thorough tier only)
+    let mut fuzz_report: Vec<Value> = vec![];
+    if tier == Tier::Thorough && std::env::var("NSV_NO_FUZZ").is_err() {
+        for target in fuzz_targets_for(id) {
+            let fr = run_fuzz(id, target, seed, &root);
+            merged.evaluations += fr.execs;
+            *merged.engines.entry(format!("libfuzzer:{}", target)).or_insert(0) += fr.execs;
+            for v in &fr.violations {
+                n_violations += 1;
+                violation_lines.push(format!("VIOLATION property={} replay={}", id, v));
+            }
+            fuzz_report.push(json!({"target": target, "executions": fr.execs, "status": fr.status, "violations": fr.violations.len()}));
+        }
+    }
     let distinct = hashes.len() as u64 + merged.nontrivial_enumerated;
     let wall = t0.elapsed().as_secs_f64();
 
@@ -473,6 +487,7 @@ pub fn drive_main(id: &str, tier_arg: &str) -> i32 {
         "discarded": merged.discarded,
         "replay_tier_executions": replayed,
         "known_findings_reported": known_lines,
+        "libfuzzer_campaigns": fuzz_report,
         "notes": merged.notes,
         "profiles": profiles,
         "shards_per_profile": nshards,
@@ -523,4 +538,115 @@ pub fn drive_main(id: &str, tier_arg: &str) -> i32 {
     } else {
         0
     }
+}
+
+// ---------------------------------------------------------------------------------------
+// libFuzzer campaigns
+
+pub fn fuzz_targets_for(id: &str) -> Vec<&'static str> {
+    match id {
+        "C02" | "C15" | "C16" => vec!["sel"],
+        "C03" => vec!["sel", "nan"],
+        "C04" | "C14" => vec!["nan"],
+        "C01" | "C18" | "C19" => vec!["quant"],
+        "C11" | "C12" | "C13" => vec!["hist"],
+        _ => vec![],
+    }
+}
+
+pub struct FuzzResult {
+    pub execs: u64,
+    pub violations: Vec<String>,
+    pub status: String,
+}
+
+/// Runs one campaign: fixed number of runs, fixed seed, fresh working corpus seeded from the
+/// committed one. A failure of the tooling itself is reported in `status`, never as a violation.
+pub fn run_fuzz(prop: &str, target: &str, seed: u64, root: &Path) -> FuzzResult {
+    let fuzz_dir = root.join("fuzz");
+    let work = root.join("out").join("fuzz").join(format!("{}-{}", prop, target));
+    let _ = std::fs::remove_dir_all(&work);
+    let corpus = work.join("corpus");
+    let artifacts = work.join("artifacts");
+    let _ = std::fs::create_dir_all(&corpus);
+    let _ = std::fs::create_dir_all(&artifacts);
+    // an empty input plus a few pseudo-random seeds of full length (libFuzzer ramps length slowly)
+    let _ = std::fs::write(corpus.join("empty"), b"");
+    for k in 0..8u64 {
+        let mut bytes = Vec::with_capacity(256);
+        let mut x = splitmix64(seed.wrapping_add(k * 977));
+        for _ in 0..256 {
+            x = splitmix64(x);
+            bytes.push((x >> 24) as u8);
+        }
+        let _ = std::fs::write(corpus.join(format!("seed{}", k)), bytes);
+    }
+    let committed = fuzz_dir.join("corpus").join(target);
+    let runs: u64 = std::env::var("NSV_FUZZ_RUNS").ok().and_then(|s| s.parse().ok()).unwrap_or(match target {
+        "sel" => 1_500_000,
+        "nan" => 800_000,
+        "hist" => 600_000,
+        _ => 400_000,
+    });
+    let lf_seed = (splitmix64(seed ^ hash_str(prop)) % 0x7fff_fffe) + 1;
+    let mut cmd = Command::new("cargo");
+    cmd.current_dir(&fuzz_dir)
+        .arg("+nightly")
+        .arg("fuzz")
+        .arg("run")
+        .arg("--fuzz-dir")
+        .arg(&fuzz_dir)
+        .arg(target)
+        .arg(&corpus);
+    if committed.is_dir() {
+        cmd.arg(&committed);
+    }
+    cmd.arg("--")
+        .arg(format!("-runs={}", runs))
+        .arg(format!("-seed={}", lf_seed))
+        .arg("-len_control=0")
+        .arg("-max_len=512")
+        .arg("-max_total_time=1500")
+        .arg("-print_final_stats=1")
+        .arg(format!("-artifact_prefix={}/", artifacts.display()))
+        .env("NSV_PROP", prop)
+        .env("NSV_ROOT", root)
+        .env("CARGO_NET_OFFLINE", "true")
+        .stdin(Stdio::null());
+    let out = match cmd.output() {
+        Ok(o) => o,
+        Err(e) => return FuzzResult { execs: 0, violations: vec![], status: format!("cargo fuzz could not be started: {}", e) },
+    };
+    let text = format!("{}{}", String::from_utf8_lossy(&out.stdout), String::from_utf8_lossy(&out.stderr));
+    let mut violations = vec![];
+    for l in text.lines() {
+        if let Some(pos) = l.find("NSV-FUZZ-VIOLATION") {
+            if let Some(r) = l[pos..].split("replay=").nth(1) {
+                violations.push(r.split_whitespace().next().unwrap_or("").to_string());
+            }
+        }
+    }
+    let execs = text
+        .lines()
+        .filter_map(|l| l.strip_prefix("stat::number_of_executed_units:"))
+        .filter_map(|v| v.trim().parse::<u64>().ok())
+        .last()
+        .unwrap_or(0);
+    let status = if out.status.success() {
+        "completed".to_string()
+    } else if !violations.is_empty() {
+        "stopped at a property violation".to_string()
+    } else if text.contains("ERROR: AddressSanitizer") || text.contains("ERROR: libFuzzer: deadly signal") {
+        // a memory-safety report or crash that is not one of our oracle aborts: the artifact is the reproducer
+        let art = std::fs::read_dir(&artifacts).ok().and_then(|rd| rd.filter_map(|e| e.ok()).map(|e| e.path()).next());
+        if let Some(a) = art {
+            violations.push(a.to_string_lossy().to_string());
+        }
+        "sanitizer / crash report".to_string()
+    } else {
+        // tooling problem (nightly or cargo-fuzz missing, build failure): inconclusive for this engine only
+        let tail: Vec<&str> = text.lines().rev().take(3).collect();
+        format!("not run: {}", tail.into_iter().rev().collect::<Vec<_>>().join(" | "))
+    };
+    FuzzResult { execs, violations, status }
 }
